@@ -49,6 +49,9 @@ type Check struct {
 
 var registry = map[string]*Check{}
 
+// ExtraCommands are additional vmc sub-commands registered by build-tagged files.
+var ExtraCommands = map[string]func(args []string) int{}
+
 func Register(c *Check) { registry[c.ID] = c }
 
 func Lookup(id string) *Check { return registry[id] }
@@ -141,6 +144,10 @@ func (c *Ctx) Nontrivial() {
 		c.stats.Nontrivial++
 	}
 }
+
+// NontrivialSub counts one distinct non-trivial sub-case (a history enumerated
+// inside a coarse case; distinct by construction).
+func (c *Ctx) NontrivialSub() { c.stats.Nontrivial++ }
 
 func (c *Ctx) Outcome(class string) { c.stats.Outcomes[class]++ }
 
